@@ -81,9 +81,15 @@ FORMS = {
     "same-name-renamed-c": ("use c::Ren;", "Ren", ("import", "c", "OtherC")),
     "same-name-b": ("use b::PLACEN;", "PLACEN", ("import", "b", "N")),
     "dash-crate": ("use d_e::PLACEN;", "PLACEN", ("import", "d_e", "N")),
+    # the crate's own type has the same name as a type of crate b: no import, whatever the root keyword
+    "self-path-same-name": ("use self::other::PLACEN;", "PLACEN", ("none",)),
+    "crate-path-same-name": ("use crate::other::PLACEN;", "PLACEN", ("none",)),
+    "super-path-same-name": ("use super::other::PLACEN;", "PLACEN", ("none",)),
+    "crate-qualified-same-name": ("", "crate::other::PLACEN", ("none",)),
     # a second file of crate a imports the same name from crate c (used by C06's hash-ws group: which import survives must not depend on hashing)
     "same-name-both-imported": ("use b::PLACEN;", "PLACEN", ("import", "b", "N")),
 }
+A_OTHER_SAME = "#[typeshare]\npub struct Local { pub q: bool }\n#[typeshare]\npub struct PLACEN { pub own: bool }\n"
 A_OTHER_C = "use c::PLACEN;\n#[typeshare]\npub struct Local { pub q: bool, pub r: PLACEN }\n"
 POSITIONS = {
     "field": "#[typeshare]\npub struct User { pub f: %s }\n",
@@ -104,7 +110,7 @@ DEPTHS = {"lib": "a/src/lib.rs", "module": "a/src/models/m.rs", "deep": "a/src/x
 def workspace(form, pos, depth):
     use, spelled, expect = FORMS[form]
     a_src = (use + "\n" if use else "") + "use std::collections::HashMap;\n" + POSITIONS[pos] % spelled
-    files = [("a", DEPTHS[depth], a_src), ("a", "a/src/other.rs", A_OTHER_C if form == "same-name-both-imported" else A_OTHER)]
+    files = [("a", DEPTHS[depth], a_src), ("a", "a/src/other.rs", A_OTHER_C if form == "same-name-both-imported" else A_OTHER_SAME if form.endswith("-path-same-name") or form == "crate-qualified-same-name" else A_OTHER)]
     if form == "dash-crate":
         files.append(("d_e", "d-e/src/lib.rs", B_LIB))
     else:
